@@ -52,6 +52,7 @@ type PluginConf struct {
 	// protocol's "rpc Shutdown(Empty) returns (Empty)" describes; go-plugin's own server stops inside the handler,
 	// so its host never sees the reply)
 	AckShutdown bool `json:"ack_shutdown,omitempty"`
+	Chatter     bool `json:"chatter,omitempty"` // plugin code prints to os.Stdout / os.Stderr by itself once it is being served
 }
 
 // HostConf is the client side of a cell.
